@@ -231,11 +231,9 @@ def check(ctx):
     f = py.func('annotationparser', 'GtkDocCommentBlockParser.parse_comment_block')
     cfg = pycfg.CFG(f)
     # the main loop
-    main = [n for n in f.body if isinstance(n, ast.For) and P.src(n.iter) == 'comment_lines']
-    if len(main) != 1 or not isinstance(main[0].target, ast.Name):
-        raise AnalysisError('parse_comment_block: `for line in comment_lines` not found')
-    loop = main[0]
-    lv = loop.target.id
+    main = [n for n in f.body if isinstance(n, ast.For) and any(isinstance(x, ast.Name) and x.id == 'comment_lines' for x in ast.walk(n.iter))]
+    if len(main) != 1:
+        raise AnalysisError('parse_comment_block: the loop over comment_lines was not found')
     # how the comment is split into lines
     cl = [v for t, v, st in P.stores_in(f) if isinstance(t, ast.Name) and t.id == 'comment_lines' and isinstance(st, ast.Assign)]
     if len(cl) != 1:
@@ -314,6 +312,20 @@ def check(ctx):
                  'length stripped in front of that suffix, so that the caret points at the offending text' % (gsa._unparse(col)[:120], gsa._unparse(line_e)[:60]),
                  detail={'position terms': pos, 'offsets': ks, 'line': [base, loffs]})
         return base
+    # the expression that denotes the 1-based number of the line being looked at inside the main loop:
+    #   (a) the line counter parameter, incremented first thing in every iteration           -> `lineno + 1` after copy propagation
+    #   (b) the counter component of `enumerate(comment_lines, lineno + 1)`                  -> that loop variable (never rebound)
+    it = main[0].iter
+    cur_line = '%s + 1' % lineno_p
+    enum_form = False
+    if isinstance(it, ast.Call) and P.call_name(it) == 'enumerate' and it.args and P.src(it.args[0]) == 'comment_lines':
+        start = it.args[1] if len(it.args) > 1 else next((k.value for k in it.keywords if k.arg == 'start'), None)
+        tg = main[0].target
+        if start is None or gsa._unparse(start) != '%s + 1' % lineno_p or not (isinstance(tg, ast.Tuple) and len(tg.elts) == 2 and isinstance(tg.elts[0], ast.Name)):
+            r5.fail('running line number', rel, main[0].lineno, 'lines are numbered by %s: the first line after the opening token must get number %s + 1' % (P.src(it), lineno_p))
+        else:
+            cur_line = tg.elts[0].id
+            enum_form = True
     WANT_POS = {'comment_lines[0]': 'Position(%s, %s)' % (fname_p, lineno_p), 'comment_lines[-1]': 'Position(%s, %s + len(comment_lines) - 1)' % (fname_p, lineno_p)}
     n_exempt = n_sites = 0
     diag = []
@@ -329,11 +341,11 @@ def check(ctx):
             if len(a) >= 5:
                 n_sites += 1
                 base = check_site(e, a[3], a[4], '%s(%s, %s)' % (e.target, P.src(e.node.args[3]), P.src(e.node.args[4])))
-                wantp = WANT_POS.get(base, 'Position(%s, %s + 1)' % (fname_p, lineno_p) if e.loops else None)
+                wantp = WANT_POS.get(base, 'Position(%s, %s)' % (fname_p, cur_line) if e.loops else None)
                 r5.check(len(a) >= 2 and gsa._unparse(a[1]) == wantp, 'diagnostic carries the position of the quoted line', rel, e.line,
                          'diagnostic quoting `%s` is reported at %s, expected %s' % (base, gsa._unparse(a[1]) if len(a) > 1 else None, wantp), detail=gsa._unparse(a[1]) if len(a) > 1 else None)
             else:
-                wantp = 'Position(%s, %s + 1)' % (fname_p, lineno_p) if e.loops else 'Position(%s, %s)' % (fname_p, lineno_p)
+                wantp = 'Position(%s, %s)' % (fname_p, cur_line) if e.loops else 'Position(%s, %s)' % (fname_p, lineno_p)
                 r5.check(len(a) >= 2 and gsa._unparse(a[1]) == wantp, 'diagnostic carries position', rel, e.line,
                          'diagnostic without the current position: %s' % e.value[:80])
         elif e.target in ['self.' + h for h in HELPERS] and len(a) >= 3:
@@ -342,13 +354,16 @@ def check(ctx):
                 continue
             n_sites += 1
             check_site(e, a[1], a[2], '%s(%s, %s)' % (e.target, P.src(e.node.args[1]), P.src(e.node.args[2])))
-            r5.check(gsa._unparse(a[0]) == 'Position(%s, %s + 1)' % (fname_p, lineno_p), 'helper receives the position of the current line', rel, e.line,
+            r5.check(gsa._unparse(a[0]) == 'Position(%s, %s)' % (fname_p, cur_line), 'helper receives the position of the current line', rel, e.line,
                      '%s is given position %s' % (e.target, gsa._unparse(a[0])))
     if n_sites < 20:
         raise AnalysisError('parse_comment_block: only %d diagnostic sites with a caret column recognised' % n_sites)
     ctx.notes.append('R5: %d diagnostic sites under the deprecated tag-style branch exempted (as the property states)' % n_exempt)
     inc = [e for e in PCB.effects if e.kind == 'local' and e.target == lineno_p]
-    okinc = len(inc) == 1 and inc[0].value == '%s + 1' % lineno_p and all(gsa.implies(d.cond, inc[0].cond) for d in diag if d.loops)
+    if enum_form:
+        okinc = not inc and not [e for e in PCB.effects if e.kind == 'local' and e.target == cur_line]
+    else:
+        okinc = len(inc) == 1 and inc[0].value == '%s + 1' % lineno_p and all(gsa.implies(d.cond, inc[0].cond) for d in diag if d.loops)
     r5.check(okinc, 'running line number', rel, inc[0].line if inc else f.lineno, 'the line counter is not incremented exactly once, first thing, for every line: %s' % [(e.value, e.when()[:80]) for e in inc])
     # helpers pass (column, line) through unchanged in frame
     for hn in HELPERS:
@@ -448,10 +463,11 @@ def check(ctx):
     expect = {'warn': 'WARNING', 'error': 'ERROR', 'fatal': 'FATAL'}
     for hn, lvl in expect.items():
         hf = py.func('message', hn)
-        lc = [c for c in P.calls_in(hf) if isinstance(c.func, ast.Attribute) and c.func.attr == 'log']
-        ok = len(lc) == 1 and P.src(lc[0].args[0]) == lvl and not P.guards(lc[0]) and \
-            [P.src(a) for a in lc[0].args[1:]] == ['text', 'positions', 'prefix', 'marker_pos', 'marker_line']
-        r6.check(ok, '%s() -> log(%s) unconditionally with all arguments' % (hn, lvl), mm.rel, hf.lineno, '%s: %s' % (hn, [P.src(c) for c in lc]))
+        HS_ = gsa.Summary(py, 'message', hn, inline_module_funcs=True)
+        lc = [e for e in gsa.find(HS_, 'call', r'(^|\.)log$')]
+        ok = len(lc) == 1 and lc[0].cond is True and lc[0].args == [lvl] + list(HS_.params)[:5] and len(HS_.params) >= 5 and \
+            re.match(r'^MessageLogger\.get\(\)\.log$', lc[0].target) is not None
+        r6.check(ok, '%s() -> log(%s) unconditionally with all arguments' % (hn, lvl), mm.rel, hf.lineno, '%s: %s' % (hn, [(e.value, e.when()[:60]) for e in lc]))
     ln = py.func('message', 'MessageLogger.log_node')
     lc = [c for c in P.calls_in(ln) if P.src(c.func) == 'self.log']
     r6.check(len(lc) == 1 and not [g for g in P.guards(lc[0])], 'log_node reaches log', mm.rel, ln.lineno, 'log_node does not always call log')
